@@ -371,7 +371,68 @@ def _lit(v):
     return "'%s'" % v
 
 
+class LegacyWorld:
+    """the legacy function set (yaql.legacy.create_context) under the legacy and the current engine"""
+
+    def __init__(self):
+        from yaql import legacy as ylegacy
+        self.engines = [('legacy-engine', ylegacy.YaqlFactory().create()), ('current-engine', yq.engine())]
+        self.ctx = ylegacy.create_context()
+        self.ticker = hooks.Ticker()
+        self.ticker.register(self.ctx)
+
+    def run(self, eng, text):
+        self.ticker.reset()
+        try:
+            out = ('value', eng(text).evaluate(context=self.ctx.create_child_context()))
+        except Exception as e:
+            out = ('error', type(e).__name__)
+        return out, self.ticker.reset()
+
+
+def legacy_cases(rng):
+    """legacy switch: `cond => value` pairs are tried in order; the pairs after the selected one are not evaluated
+    (the order of condition and value inside one pair is not fixed by the documentation and not judged)"""
+    n = rng.choice((1, 2, 3, 4))
+    sel = rng.choice(list(range(n)) + [None])
+    recv = True       # switch is an extension method: in function form its first argument is the value
+    parts = []
+    fired = [1] if recv else []
+    for i in range(n):
+        c, v = 2 * i + 2, 2 * i + 3
+        cond = 'true' if i == sel else rng.choice(('false', 'null', '0 > 1'))
+        if recv and i == sel:
+            cond = '$ > 1'
+        parts.append('tick(%d, %s) => tick(%d, %d)' % (c, cond, v, 100 + i))
+        if sel is None or i <= sel:
+            fired += [c, v]
+    text = ('tick(1, 5).switch(%s)' if recv else 'switch(%s)') % ', '.join(parts)
+    yield 'legacy-switch', text, sorted(fired), (100 + sel if sel is not None else None), 2 * n + (1 if recv else 0) - len(fired)
+    if sel is not None and sel < n - 1:
+        # a later pair that would fail is never reached
+        bad = parts[:sel + 1] + ['tick(90, 1 / 0 > 5) => tick(91, 7)']
+        text = ('tick(1, 5).switch(%s)' if recv else 'switch(%s)') % ', '.join(bad)
+        yield 'legacy-switch-later-pair-fails', text, sorted([f for f in fired]), 100 + sel, 2
+
+
 def exact(mon, rec, rng, count):
+    legacy = LegacyWorld()
+    for i in range(count):
+        for form, text, want_sorted, want_val, unselected in legacy_cases(rng):
+            for ename, eng in legacy.engines:
+                out, trace = legacy.run(eng, text)
+                rec.count('exact.cases')
+                rec.count('form.' + form)
+                rec.count('exact.unselected_operands', unselected)
+                rec.case((text, ename), nontrivial=True)
+                rp = {'kind': 'legacy', 'form': form, 'text': text, 'engine': ename}
+                if sorted(trace) != want_sorted:
+                    extra = [t for t in trace if t not in want_sorted]
+                    mech = 'unselected-operand-evaluated:%s' % form if extra else 'evaluation-trace-differs:%s' % form
+                    rec.violation(mech, '%s (legacy functions, %s): probes fired %r, expected (in any order inside a pair) %r (outcome %r)' % (
+                        text, ename, trace, want_sorted, out), rp)
+                elif out != ('value', want_val):
+                    rec.violation('value-differs:%s' % form, '%s (legacy functions, %s) gave %r, expected %r' % (text, ename, out, want_val), rp)
     for i in range(count):
         for form, text, vars_, want_trace, want_val, unselected in exact_cases(rng):
             out, trace = mon.run(text, vars_)
@@ -538,7 +599,11 @@ def run_shard(spec, rec):
 def replay(data, rec):
     mon = Mon(rec)
     try:
-        if data['kind'] == 'exact':
+        if data['kind'] == 'legacy':
+            lw = LegacyWorld()
+            for ename, eng in lw.engines:
+                print(ename, data['text'], '->', lw.run(eng, data['text']))
+        elif data['kind'] == 'exact':
             out, trace = mon.run(data['text'])
             print('%s -> %r, probes fired %r' % (data['text'], out, trace))
             print('(expected trace is regenerated only by re-running the check)')
